@@ -107,6 +107,7 @@ class DslApp:
         self.closes = {}
         self.files = {}
         self.hook = hook  # called at every step (scheduler yield point in E3)
+        self.returned = {}     # idx -> kind of object handed back to the server
         self.faults_hit = []
 
     def step(self, idx, what, k=0):
@@ -172,6 +173,7 @@ class DslApp:
             if ra and ra[0] == "return":
                 self.faults_hit.append(idx)
                 raise mk()
+            self.returned[idx] = "fw"
             return environ["wsgi.file_wrapper"](f, fw.get("block", 8192))
         if mode == "write":
             write = self.do_start(idx, beh, start_response)
@@ -188,12 +190,14 @@ class DslApp:
             if ra and ra[0] == "return":
                 self.faults_hit.append(idx)
                 raise mk()
+            self.returned[idx] = "iter"
             return it
         if mode == "purelist":
             self.do_start(idx, beh, start_response)
             if ra and ra[0] == "return":
                 self.faults_hit.append(idx)
                 raise mk()
+            self.returned[idx] = "purelist"
             return [c.encode("latin-1") for c in beh.get("chunks", [])]
         cls = LenIter if mode == "list" else TrackedIter
         it = cls(self, idx, beh, environ, start_response, mk)
@@ -203,6 +207,7 @@ class DslApp:
         if ra and ra[0] == "return":
             self.faults_hit.append(idx)
             raise mk()
+        self.returned[idx] = "iter"
         return it
 
 
@@ -238,6 +243,10 @@ class MultiConnApp:
     @property
     def closes(self):
         return {(k, i): n for k in self.apps for i, n in self.apps[k].closes.items()}
+
+    @property
+    def returned(self):
+        return {(k, i): v for k in self.apps for i, v in self.apps[k].returned.items()}
 
     @property
     def faults_hit(self):
